@@ -20,8 +20,12 @@ from mc import spec as S
 def depths(spec: dict) -> t.Dict[str, int]:
     deps = S.static_deps(spec)
     d: t.Dict[str, int] = {}
+    d[spec['input']] = 0
     for n in spec['nodes']:          # dependency order
-        d[n] = 1 + max((d[p] for p in deps[n]), default=-1)
+        if n == spec['input']:
+            continue
+        # a node without marks hangs off the input node through the builder's implicit link (depth 1)
+        d[n] = 1 + max((d[p] for p in (deps[n] or {spec['input']})))
     return d
 
 
